@@ -374,7 +374,8 @@ static std::string stepOld(const Toks& t)
 	}
 	if (op == "r" || op == "seek" || op == "pos") {
 		if (!sess) return "err nosession";
-		if (sess->mode != 0) return "err mode";
+		// read(p, n) is offered in every mode but "r+": through a writer it returns nothing and sets the error indicator
+		if (op == "r" ? sess->mode == 3 : sess->mode != 0) return "err mode";
 		if (op == "r" && t.size() == 2) {
 			long long k = num(t[1]);
 			if (k < 0 || k > (1 << 26)) return "bad-op";
